@@ -66,8 +66,23 @@ def oracle_fails(pid, rec):
     and invalid UTF-8 are violations of every property that renders or parses."""
     return rec["info"]["obs"] in ("PANIC", "HANG", "BADUTF8")
 
+NOT_APPLICABLE = {}
+
 PROPS = {
+    "C18": {
+        "rule": "every valid operation sequence up to length 3 (quick) / 4 (thorough) over {push plain d, push sandbox d, push global, pop, assign-global k v, set-counter k v} with d over all 9 maps on {a,b} x {absent, scalar, object}, plus random sequences of length 4..6 over random bases; after EVERY operation the state is observed by try_get and get of all 8 paths of length 1..2, roots() and both counters; non-trivial = distinct sequences (all of them observe a non-empty state)",
+        "explanation": "Lean theorems C18_* (refinement of try_get to an abstract stack-of-maps lookup; get = try_get with error, never the find panic; transparency; sandbox hides; set_global lands in the nearest global layer and is visible through plain scopes; pop restores; counters shared; roots exact) about the model of runtime/stack.rs + runtime.rs, and a differential run executing every operation sequence on the real frame types",
+        "exhaustive": True,
+        "manifest_text": "Lean 4 theorems proved for all stacks, paths, names and values (refinement of lookup to a stack of maps, agreement of failing/optional lookup incl. unreachability of the `find` panic, transparency, sandbox isolation, nearest-global assignment, pop restoration, shared counters, exact roots), about a hand-written model of the five frame kinds; tied to /repo by executing every operation sequence (<=3 quick, <=4 thorough, random to 6) on the real StackFrame/SandboxedStackFrame/GlobalFrame/IndexFrame types and comparing every observation with the model, plus checking the state-local laws directly on the implementation's observations.",
+        "manifest_note": "Trusted: Lean kernel + allowed axioms, theorem statements, the hand-written frame model (validated differentially), harness/driver. Registers other than counters and frame names are not observed here (covered by C08/C09).",
+        "technique": "Lean 4 proof (refinement to abstract stack of maps) + differential state-space exploration on the real runtime types",
+        "design_ref": "DESIGN.md section 7 C18",
+    },
     "C05": {
+        "manifest_text": "Lean 4 theorems (C05_window: iter_array = drop/take/reverse for all arrays/offsets/limits; forloop/tablerow field equations for all i,n,cols; loop visiting order, continue/break semantics of the loop driver and of block bodies; ranges and collections) about a hand-written executable model of for_block.rs/template.rs, tied to /repo by a differential run of the model's interpreter and of an independent executable spec against the real crate on the property's full enumeration grid on every run.",
+        "manifest_note": "Trusted: Lean kernel + allowed axioms (propext, Classical.choice, Quot.sound), theorem statements, hand-written model (validated differentially, not derived), harness/driver/protocol. The theorem tying the whole-template render to the spec string is not proved; spec, model and implementation are compared case by case instead.",
+        "technique": "Lean 4 proof (induction / algebraic laws) + differential correspondence model-vs-implementation",
+        "design_ref": "DESIGN.md section 7 C05",
         "rule": "cases = the property's grid (length 0..6 x offset {none,0..8} x limit {none,0..8} x reversed x cols {none,1..4}; arrays, ranges, tablerow), degenerate collections, break/continue at every index of two nested loops, random larger instances; non-trivial = distinct (template,data) whose observed result is not an empty output",
         "explanation": "Lean theorems C05_* about the model of for_block.rs/template.rs (window = drop/take, forloop/tablerow fields, visiting order, break/continue) + differential run of the model's interpreter against the real crate on the property's own enumeration",
         "exhaustive": True,
